@@ -181,9 +181,9 @@ func c02Run(c *mc.Ctx) {
 func init() {
 	Register(&Check{
 		ID: "C02", Level: "exploration",
-		Rule: "every typed value tree of the generator (all 121 map key/value type pairs x sizes 0..2, all 11 list/set element types x sizes 0..3, 121 ordered struct field pairs, level-2 'many' containers, nesting chains 1..63 for every container kind with fixed and string leaves, strings from 0 to 9000 bytes) x 4 trailers x 7 skipper/reader combinations x every fragmentation policy (chunk size, zero reads, final data with or before EOF); distinct = distinct (encoding,type)",
+		Rule:        "every typed value tree of the generator (all 121 map key/value type pairs x sizes 0..2, all 11 list/set element types x sizes 0..3, 121 ordered struct field pairs, level-2 'many' containers, nesting chains 1..63 for every container kind with fixed and string leaves, strings from 0 to 9000 bytes) x 4 trailers x 7 skipper/reader combinations x every fragmentation policy (chunk size, zero reads, final data with or before EOF); distinct = distinct (encoding,type)",
 		Assumptions: []string{"quick tier: 1..3-byte chunk policies only on values <= 600 bytes; thorough: all"},
-		Run: c02Run,
+		Run:         c02Run,
 		Replay: func(c *mc.Ctx, sub string, raw json.RawMessage) {
 			if sub == "history" {
 				replayAs(raw, func(k c02Hist) { c02HistOne(c, k) })
